@@ -905,3 +905,42 @@ def ident_case(ck, F, rule="LIT"):
                           "%s compares the name of a Node::%s with `==`, but the printer writes that name case-folded: after a save/reload "
                           "(or a copy of the displayed formula) a variable declared as `F` and called as `f(..)` no longer binds (#NAME?)" % (qn, hit), f, l)
     ck.ob(rule, "ident-case|no exact comparison of folded names", True, sample={"folded_kinds": sorted(folded), "exact_comparisons": n})
+    # the fold used to compare is the fold used to print: the printer lower-cases with the Unicode mapping (to_lowercase), so a
+    # helper that decides whether two such names are the same must fold with the Unicode mapping too -- an ASCII-only fold
+    # (eq_ignore_ascii_case, to_ascii_lowercase) stops matching `TamaÑo` with the `tamaño` the printer wrote
+    UNI, ASC = ("to_lowercase", "to_uppercase"), ("eq_ignore_ascii_case", "to_ascii_lowercase", "to_ascii_uppercase")
+    printer_unicode = False
+    for path in sorted(F.body_paths()):
+        if "stringify" in path:
+            b = F.body(path)
+            for bi, t in b.calls():
+                if (b.callee_q(t) or "").rsplit("::", 1)[-1] in UNI and t["args"] and _name_field_of(b, t["args"][0], NODE):
+                    printer_unicode = True
+    helpers = {}
+    for path in sorted(F.body_paths()):
+        h = F.heads[path]
+        if h["crate"] != "ironcalc_base" or "/test" in h["file"] or '"name"' not in F._raw.get(path, ""):
+            continue
+        b = F.body(path)
+        for bi, t in b.calls():
+            c = b.callee(t)
+            last = (b.callee_q(t) or "").rsplit("::", 1)[-1]
+            hit = [v for v in (_name_field_of(b, a, NODE) for a in t["args"]) if v in folded]
+            if not hit:
+                continue
+            if last in ASC and printer_unicode:
+                f, l = b.loc(bi)
+                ck.ob(rule, "ident-case|%s folds %s.name with %s" % (b.qname.split("::", 1)[-1], hit[0], last), False,
+                      "%s compares the name of a Node::%s with the ASCII-only %s, but the printer folds it with the Unicode to_lowercase: a name "
+                      "with a non-ASCII capital no longer matches its printed form" % (b.qname.split("::", 1)[-1], hit[0], last), f, l)
+            if c in F.heads and F.has(c) and (F.heads[c].get("output") or "") == "bool":
+                helpers[c] = hit[0]
+    for c, kind in sorted(helpers.items()):
+        hb = F.body(c)
+        calls = {(hb.callee_q(t) or "").rsplit("::", 1)[-1] for _, t in hb.calls()}
+        asc = sorted(calls & set(ASC))
+        ok = not (printer_unicode and asc)
+        ck.ob(rule, "ident-case|%s folds like the printer" % hb.qname.split("::", 1)[-1], ok,
+              "%s decides whether two Node::%s names are the same with the ASCII-only %s, but the printer folds them with the Unicode "
+              "to_lowercase: `TamaÑo` declared, `tamaño(..)` printed and stored, #NAME? after the reload" % (hb.qname.split("::", 1)[-1], kind, asc),
+              hb.file, hb.line, sample={"helper": hb.qname.split("::", 1)[-1], "folds": sorted(calls & (set(ASC) | set(UNI)))})
